@@ -30,7 +30,7 @@ var claims = map[string][]string{
 	"C13":      {"fd-leak", "task-leak", "foreign-watch"},
 	"C14":      {"cap-mismatch", "stream-divergence", "lost-event", "phantom-event", "order", "foreign-watch", "absorb-failed", "reader-stuck"},
 	"C17":      {"kq-fd-leak", "kq-table-leak", "kq-internal-path-listed", "task-leak", "panic", "deadlock"},
-	"C18":      {"kq-event-mismatch", "kq-duplicate-create", "kq-missing-create", "panic", "script-mismatch"},
+	"C18":      {"kq-event-mismatch", "kq-duplicate-create", "kq-missing-create", "kq-event-order", "panic", "script-mismatch"},
 	"KQSCRIPT": {"script-mismatch", "panic", "deadlock"},
 	"C19":      {"lost-event", "phantom-event", "name-mismatch", "order", "watchlist-mismatch", "renamed-from-mismatch"},
 }
